@@ -143,6 +143,7 @@ class Interp:
         self.attr_hook = None  # fn(interp, obj_value, attr) -> value | NotImplemented
         self.trace = []
         self.steps = 0
+        self.globals = {}
 
     # ---- entry points -----------------------------------------------------
     def call(self, fi, self_obj, args=(), kwargs=None):
@@ -355,6 +356,8 @@ class Interp:
     def e_Name(self, e, env):
         if e.id in env:
             return env[e.id]
+        if e.id in getattr(self, "globals", {}):
+            return self.globals[e.id]
         mod = env.get("__mod__")
         if e.id in ("True", "False", "None"):
             return {"True": True, "False": False, "None": None}[e.id]
@@ -729,10 +732,22 @@ class PyMethod:
             raise Undecided(f"builtin method {self.attr}: {e}")
 
 
+def _dir_of(interp, v):
+    names = set()
+    if isinstance(v, Obj):
+        names |= set(v.attrs)
+        v = ClassRef(v.cls) if v.cls is not None else None
+    if isinstance(v, ClassRef):
+        for k in interp.repo.mro(v.cls):
+            names |= set(k.consts) | set(k.methods)
+    names |= {"__class__", "__doc__", "__init__", "__module__", "__eq__", "__repr__"}
+    return sorted(names)
+
+
 BUILTINS = {
     "int", "float", "len", "isinstance", "max", "min", "str", "bool", "range", "list",
     "tuple", "dict", "bytes", "abs", "enumerate", "zip", "sorted", "hex", "round", "set",
-    "Exception", "ValueError", "RuntimeError", "OverflowError", "getattr", "callable", "dir",
+    "Exception", "ValueError", "RuntimeError", "OverflowError", "getattr", "setattr", "hasattr", "callable", "dir",
 }
 
 
@@ -779,6 +794,33 @@ class Builtin:
                 return __builtins__[n](*args, **kwargs) if isinstance(__builtins__, dict) else getattr(__builtins__, n)(*args, **kwargs)
             except Exception as e:
                 raise Undecided(f"builtin {n}: {e}")
+        if n == "dir":
+            return _dir_of(interp, args[0])
+        if n == "callable":
+            return isinstance(args[0], (BoundMethod, Native, Builtin, ClassRef, PyMethod))
+        if n == "getattr":
+            if not isinstance(args[1], str):
+                raise Undecided("getattr with non-constant name")
+            if args[1].startswith("__") and isinstance(args[0], (ClassRef, Obj)):
+                return Builtin("noop")
+            try:
+                return interp.getattr(args[0], args[1], node)
+            except PyRaise:
+                if len(args) > 2:
+                    return args[2]
+                raise
+        if n == "hasattr":
+            try:
+                interp.getattr(args[0], args[1], node)
+                return True
+            except PyRaise:
+                return False
+        if n == "setattr":
+            if not isinstance(args[0], Obj) or not isinstance(args[1], str):
+                raise Undecided("setattr target")
+            args[0].attrs[args[1]] = args[2]
+            interp.trace.append(("setattr", args[0], args[1], args[2]))
+            return None
         if n == "range":
             return range(*args)
         if n == "enumerate":
